@@ -34,7 +34,7 @@ REGISTRY = {
     "C08": {"families": [fam_sql.run, fam_iter.run], "assumptions": ["each occurrence of a leaf table in one query gets its own alias (as a user must do for self-joins)"]},
     "C11": {"families": [fam_sql.run, fam_deep.run], "assumptions": ["list equality is demanded exactly when TLC's OrdTree says the outermost level carries a sort that totally orders its rows"]},
     "C17": {"families": [fam_sql.run, fam_repo.run], "assumptions": []},
-    "C03": {"families": [fam_multi.run], "assumptions": [
+    "C03": {"families": [fam_multi.run, fam_deep.run], "assumptions": [
         "content is compared after processing with a real SQLite<->iteration Processor; list equality when TLC's ListDet holds, bag equality when BagDet holds",
         "with transfer=True and a fully successful backtrack the documented behaviour (no transfer added) is accepted"]},
     "C15": {"families": [fam_multi.run], "assumptions": []},
